@@ -220,6 +220,9 @@ def random_part(ctx, n):
 
 
 def run_shard(ctx):
+    if ctx.thorough:
+        from vf import fuzz
+        fuzz.run(ctx, ID, 90, FUZZ_SEEDS)
     exhaustive(ctx, 9 if ctx.thorough else 7)
     random_part(ctx, ctx.n(20000, 400000))
 
@@ -231,3 +234,25 @@ def replay(case):
         parts = (msg,)
     return judge(msg, parts, unhex(case.get('trailer', '')), int(case.get('preload', 0)),
                  tuple(sorted(set(int(c) for c in case.get('cuts', [])))))
+
+
+# -- coverage-guided tier (atheris) ---------------------------------------------------------------------
+
+def fuzz_target(data):
+    """bytes -> (message, trailer, preload, cuts)"""
+    if len(data) < 4:
+        return None, []
+    tl = data[0] % 12
+    preload = data[1] % 40
+    ncuts = data[2] % 6
+    cuts = sorted(set(data[3:3 + ncuts]))
+    rest = data[3 + ncuts:]
+    trailer = rest[:tl]
+    msg = rest[tl:]
+    points = [i + 1 for i, c in enumerate(msg) if c == 10 and i + 1 < len(msg)]
+    parts = tuple(cut(msg, points[:2])) or (b'',)
+    f = judge(msg, parts, trailer, min(preload, len(msg) + len(trailer) + 5), tuple(cuts))
+    return case_json(msg, parts, trailer, preload, cuts), f
+
+
+FUZZ_SEEDS = [b'\x00\x00\x00a\r\n.b\r\n', b'\x06\x03\x02\x05\x09QUIT\r\n.\r\n..\r\nx', b'\x03\x00\x01\x02.\r\n']
